@@ -716,7 +716,9 @@ static int ZSTD_isUpdateAuthorized(ZSTD_cParameter param)
 size_t ZSTD_CCtx_setParameter(ZSTD_CCtx* cctx, ZSTD_cParameter param, int value)
 {
     DEBUGLOG(4, "ZSTD_CCtx_setParameter (%i, %i)", (int)param, value);
-    if (cctx->streamStage != zcss_init) {
+    /* with a stable input buffer, input can have been accepted for a frame whose initialisation is postponed :
+     * only stableIn_notConsumed knows about it, but the frame has started as far as its parameters are concerned */
+    if (cctx->streamStage != zcss_init || cctx->stableIn_notConsumed != 0) {
         if (ZSTD_isUpdateAuthorized(param)) {
             cctx->cParamsChanged = 1;
         } else {
@@ -1178,7 +1180,7 @@ size_t ZSTD_CCtx_setParametersUsingCCtxParams(
         ZSTD_CCtx* cctx, const ZSTD_CCtx_params* params)
 {
     DEBUGLOG(4, "ZSTD_CCtx_setParametersUsingCCtxParams");
-    RETURN_ERROR_IF(cctx->streamStage != zcss_init, stage_wrong,
+    RETURN_ERROR_IF(cctx->streamStage != zcss_init || cctx->stableIn_notConsumed != 0, stage_wrong,
                     "The context is in the wrong stage!");
     RETURN_ERROR_IF(cctx->cdict, stage_wrong,
                     "Can't override parameters with cdict attached (some must "
